@@ -882,6 +882,26 @@ def _execute(trace, ctx, ref_spec, tgt_spec, scale, n, m, ref_pos0, tgt_pos0):
     base_result = np.array(base_map(ref_instance(ref_spec["positions"])).atoms_positions)
     results = []        # (call op index, argument positions, result positions)
     returned = []       # [molecule, snapshot]
+
+    def held_no_longer_lawful(r, s_then, conf):
+        """C01-C03 speak of the molecule the map RETURNS: it was judged against the law when it came back, and the caller
+        still holds it.  If a later call moved it (a result that aliases a buffer of the map) by more than the law's own
+        tolerance, the molecule mapped from that configuration no longer obeys the law."""
+        prop = PROP_OF_CONF.get(conf)
+        if prop not in ("C01", "C02", "C03"):
+            return
+        try:
+            now = np.array(r.atoms_positions, dtype=float)
+        except Exception:
+            return
+        then = s_then[0]
+        if now.shape != then.shape:
+            return
+        dev = float(np.max(np.abs(now - then)))
+        scale_ = max(1.0, float(np.max(np.abs(then))))
+        if dev > 1e-9 * scale_:
+            ctx.violate(prop, "held-result-moved", f"a molecule returned for the {conf} configuration obeyed the law when it "
+                                                   f"came back and was moved by {dev:.3e} nm by a later call on the map")
     arguments = []      # [molecule, snapshot at call time]
     calls_by_op = {}
     snap_ref_live = snap(ref_live)
@@ -961,6 +981,7 @@ def _execute(trace, ctx, ref_spec, tgt_spec, scale, n, m, ref_pos0, tgt_pos0):
             d = same_snap(s_before, snap(r))
             if d:
                 ctx.violate(P4, "earlier-result-modified", f"mapping changed the {d} of a previously returned molecule")
+                held_no_longer_lawful(r, s_before, _c)
                 break
         # ---- C04: metadata ----------------------------------------------------------------
         try:
@@ -1136,6 +1157,30 @@ def _execute(trace, ctx, ref_spec, tgt_spec, scale, n, m, ref_pos0, tgt_pos0):
                                         f"two-atom reference: mapped atoms {x},{y} are {d1!r} nm apart, {d0!r} on the construction "
                                         f"configuration (the atoms were not rotated together)")
                             return
+            # a rotation, not a mirror image: signed volumes (one atom: about the atom; two atoms: about the bond axis) keep
+            # their sign and size
+            if n == 2:
+                u1 = (pos[1] - pos[0]) / np.linalg.norm(pos[1] - pos[0])
+                u0 = (ref_pos0[1] - ref_pos0[0]) / np.linalg.norm(ref_pos0[1] - ref_pos0[0])
+            for x in range(min(m, 7)):
+                for y in range(x + 1, min(m, 7)):
+                    zs = [None] if n == 2 else range(y + 1, min(m, 7))
+                    for z in zs:
+                        if n == 2:
+                            v1 = float(np.dot(u1, np.cross(rpos[x] - p0, rpos[y] - p0)))
+                            v0 = float(np.dot(u0, np.cross(base_result[x] - b0, base_result[y] - b0)))
+                            size = np.linalg.norm(base_result[x] - b0) * np.linalg.norm(base_result[y] - b0)
+                        else:
+                            v1 = float(np.dot(rpos[z] - p0, np.cross(rpos[x] - p0, rpos[y] - p0)))
+                            v0 = float(np.dot(base_result[z] - b0, np.cross(base_result[x] - b0, base_result[y] - b0)))
+                            size = (np.linalg.norm(base_result[x] - b0) * np.linalg.norm(base_result[y] - b0)
+                                    * np.linalg.norm(base_result[z] - b0))
+                        if abs(v1 - v0) > 1e-8 * max(1.0, size):
+                            ctx.violate("C02", "small-ref-mirror-image",
+                                        f"{n}-atom reference: the signed volume spanned by mapped atoms {x},{y}"
+                                        f"{'' if z is None else ',' + str(z)} is {v1!r}, {v0!r} on the construction "
+                                        f"configuration (a mirror image, not a rotation)")
+                            return
             for k in range(m):
                 if n == 1:
                     d1 = np.linalg.norm(rpos[k] - p0)
@@ -1182,6 +1227,22 @@ def _execute(trace, ctx, ref_spec, tgt_spec, scale, n, m, ref_pos0, tgt_pos0):
                                 f"collinear anchor {a}: target atom {k} has (distance, axial, radial) = {i1}, but {i0} before "
                                 f"the rigid motion", key="collinear")
                     return
+                # "up to a rotation about that axis": ONE proper rotation for all the atoms of the anchor -- their mutual
+                # distances and the signed areas they span about the axis are kept (a mirror image keeps the former only)
+                for k2 in range(k + 1, m):
+                    if assignment[k2] != a:
+                        continue
+                    d1 = float(np.linalg.norm(rpos[k] - rpos[k2]))
+                    d0 = float(np.linalg.norm(base_result[k] - base_result[k2]))
+                    v1 = float(np.dot(u1, np.cross(rpos[k] - pos[a], rpos[k2] - pos[a])))
+                    v0 = float(np.dot(u0, np.cross(base_result[k] - ref_pos0[a], base_result[k2] - ref_pos0[a])))
+                    size = max(1.0, i0[0] * axis_invariants(base_result[k2], ref_pos0[a], u0)[0])
+                    if abs(d1 - d0) > tol8 or abs(v1 - v0) > tol8 * size:
+                        ctx.violate("C02", "collinear-not-one-rotation",
+                                    f"collinear anchor {a}: target atoms {k},{k2} are {d1!r} nm apart and span a signed area of "
+                                    f"{v1!r} about the axis; {d0!r} and {v0!r} before the rigid motion (not one rotation about "
+                                    f"the axis)", key="collinear")
+                        return
 
     def check_c03_shape(pos, rpos):
         if small:
@@ -1411,6 +1472,7 @@ def _execute(trace, ctx, ref_spec, tgt_spec, scale, n, m, ref_pos0, tgt_pos0):
         d = same_snap(s0, snap(r))
         if d:
             ctx.violate(P4, "earlier-result-modified", f"the {d} of a returned molecule changed later in the history")
+            held_no_longer_lawful(r, s0, _c)
             break
 
 
